@@ -128,14 +128,19 @@ def run(ck, ctx):
 
     # ---------------------------------------------------------------- R01.4 / R01.5
     def r014():
-        mc = D.run_mcintegral()
+        estimator(D.run_mcintegral(), D.mc_in, "")
+        # the same geometry serves both detection channels: the estimator must be the same on a repeated call
+        mc2, ins2 = D.run_mcintegral_again()
+        estimator(mc2, ins2, " [repeated call on the same thrown geometry]")
+
+    def estimator(mc, mc_in, tag):
         arrs = {k: D.A(k) for k in ("costhetaTrSubN", "costhetaNSubV", "costhetaTrSubV")}
         mcn = D.A("mcnorm")
         P = PolyFacet(I, opaque_ids={n.id for n in arrs.values()} | {mcn.id}, gather_transparent=True)
         geo = P.of(mc.ret(1))
         sums = [a for a in P.atoms_in(geo, deep=False) if P.atom_info[a]["kind"] == "sum"]
         if len(sums) != 1:
-            ck.ob("R01.5", "geometry-only value is one event sum times constants", False, mc.ret(1),
+            ck.ob("R01.5", "geometry-only value is one event sum times constants" + tag, False, mc.ret(1),
                   "RegionGeom.mcintegral", f"{len(sums)} sums in {P.show(geo)[:300]}")
             return
         inner = P.atom_info[sums[0]]["inner"]
@@ -143,16 +148,16 @@ def run(ck, ctx):
                "cTrV": P.of(arrs["costhetaTrSubV"])}
         ref = P.ref("cTrN/cNV/cTrV", env)
         bare = type(inner)(inner.rat)  # without mask conditions
-        ck.ob("R01.4", "per-event weight == cos(thTrN)/cos(thNV)/cos(thTrV)", P.equal(bare, ref),
+        ck.ob("R01.4", "per-event weight == cos(thTrN)/cos(thNV)/cos(thTrV)" + tag, P.equal(bare, ref),
               mc.ret(1), "RegionGeom.mcintegral", "importance weight of the geometry-only integrand",
               sides={"code": P.show(inner)[:300], "ref": P.show(ref)})
         # zeroing predicate: exactly the cone cut
         pr = Pred(I)
         em = D.A("event_mask")
         cossep = I.mk("Subscript", (arrs["costhetaTrSubV"], em))
-        want = g.vn(I.mk("Compare", (cossep, D.mc_in["costheta"]), "Lt"))
+        want = g.vn(I.mk("Compare", (cossep, mc_in["costheta"]), "Lt"))
         zc = sorted(v for (_t, v) in inner.zc)
-        ck.ob("R01.5", "geometry-only sum is cut exactly by costhetaTrSubV[valid] < costheta",
+        ck.ob("R01.5", "geometry-only sum is cut exactly by costhetaTrSubV[valid] < costheta" + tag,
               zc == [want], mc.ret(1), "RegionGeom.mcintegral",
               f"{len(zc)} zeroing mask(s); expected the single cone cut")
         # multiplied by mcnorm, divided by the thrown count
@@ -175,11 +180,11 @@ def run(ck, ctx):
                           ("betaTrSubN", "costhetaTrSubN", "costhetaTrSubV", "costhetaNSubV",
                            "thetaTrSubV", "losPathLen", "event_mask") if D.has(k)}
                 thrown.add(g.vn(I.elem(D.u, 0)))
-                ck.ob("R01.5", "divisor is the number of THROWN events", g.vn(arg) in thrown, arg,
+                ck.ob("R01.5", "divisor is the number of THROWN events" + tag, g.vn(arg) in thrown, arg,
                       "RegionGeom.mcintegral",
                       f"len() of {g.show(arg, 2)}: " + ("a per-thrown-event array" if g.vn(arg) in thrown
                                                         else "not one of the thrown-length arrays"))
-        ck.ob("R01.5", "geometry-only value == sum * mcnorm / N", ok, mc.ret(1),
+        ck.ob("R01.5", "geometry-only value == sum * mcnorm / N" + tag, ok, mc.ret(1),
               "RegionGeom.mcintegral", detail)
     ck.guard(r014, "R01.4/R01.5")
 
